@@ -26,6 +26,7 @@ import itertools
 import math
 import os
 import random
+import re
 
 from omv.core import fingerprint, repo_root
 from omv.ref.unitexpr import Library, RefError, convert, PREFIXES
@@ -62,6 +63,8 @@ EXTRA_UNITS = ['km', 'mm', 'cm', 'dm', 'nm', 'um', 'ms', 'us', 'ns', 'kPa', 'MPa
                'kV', 'mL', 'dL', 'mrad', 'kUSD']
 
 _STATE = {}
+# a simplified name made of numeric literals and operators only (no unit name left)
+_BARE_NUMBER = re.compile(r'^(?:\d+\.?\d*|\.\d+)(?:[eE][+-]?\d+)?(?:(?:\*\*|[*/])-?(?:\d+\.?\d*|\.\d+)(?:[eE][+-]?\d+)?)*$')
 
 
 def _lib():
@@ -138,7 +141,11 @@ def _judge_simplify(expr, r, cls, case, acc, bad):
                  (expr, s, type(e).__name__, str(e)[:120]), case, new_case=not bad)
         return True
     if u2 is None:
-        acc.viol('simplify:%s:result-not-a-unit' % cls, 'simplify_unit(%r) = %r, which is not a valid unit' %
+        if _BARE_NUMBER.match(s):
+            # one mechanism whatever the input class: every unit NAME cancelled, only numeric constants
+            # are left in the name ('1000*m/m' -> '1000'), and a bare number is not accepted as a unit string
+            cls = 'units-cancel-to-bare-number'
+        acc.viol('simplify:%s:result-not-a-unit' % cls,'simplify_unit(%r) = %r, which is not a valid unit' %
                  (expr, s), case, new_case=not bad)
         return True
     out = False
